@@ -57,6 +57,9 @@ SUMMARY_RE = re.compile(r'^<<"SUMMARY", (\d+), (\d+), (".*")>>\s*$', re.M)
 # ---------------------------------------------------------------------------
 
 def model_check(chk):
+    if os.environ.get("VERIF_SKIP_MC"):
+        # (mutation runs: the model does not depend on the code)
+        return
     res = vlib.run_tlc("MC_Malformed", "MC_Malformed.cfg",
                        os.path.join(chk.out, "mc"), workers=8, timeout=600,
                        coverage=True)
